@@ -201,6 +201,169 @@ func main() {
 	})
 	single(run)
 	audit(run)
+	independence(run)
+	contextPath(run)
+}
+
+// independence: every resolver keeps the ranges it was built with, whatever is built afterwards. Batches of
+// RightmostNonPrivate / LeftmostNonPrivate resolvers are created one after the other from random sequences of the
+// range options (enabled and disabled, in any order); each is queried right away and again after all the others
+// exist, with one probe address of each family at the decisive position. Model: with no option enabled the default
+// table applies (all families); otherwise exactly the union of the enabled families.
+func independence(run *kit.Run) {
+	type fam int
+	const (
+		loop fam = iota
+		link
+		priv
+		pub
+	)
+	probes := []struct {
+		ip string
+		f  fam
+	}{{"127.0.0.1", loop}, {"::1", loop}, {"127.200.1.1", loop}, {"169.254.10.10", link}, {"fe80::1", link}, {"10.1.2.3", priv}, {"192.168.1.1", priv}, {"172.20.0.1", priv}, {"100.64.0.1", priv}, {"fc00::1", priv}, {"2001:db8::7", priv}, {"9.9.9.9", pub}, {"2606:4700::1111", pub}}
+	type built struct {
+		right   bool
+		fams    [3]bool
+		any     bool
+		res     fox.ClientIPResolver
+		desc    string
+		queried int
+	}
+	query := func(b *built, stage string) {
+		for _, p := range probes {
+			trusted := p.f != pub && (!b.any || b.fams[p.f])
+			var vals []string
+			want := ""
+			if b.right {
+				vals = []string{"8.8.8.8, " + p.ip}
+				want = p.ip
+				if trusted {
+					want = "8.8.8.8"
+				}
+			} else {
+				vals = []string{p.ip + ", 8.8.4.4"}
+				want = p.ip
+				if trusted {
+					want = "8.8.4.4"
+				}
+			}
+			got := result(b.res.ClientIP(ctxFor("X-Forwarded-For", vals, "192.0.2.200:4444", nil)))
+			b.queried++
+			run.Eval(1)
+			if got != want {
+				run.Violate("resolver-ranges|"+b.desc+"|"+p.ip, fmt.Sprintf("%s queried %s with X-Forwarded-For=%q returned %s, its own options designate %s", b.desc, stage, vals, got, want), map[string]string{"resolver": b.desc, "probe": p.ip, "stage": stage})
+			}
+		}
+	}
+	rounds := run.Pick(200, 5000)
+	r := run.Rand(4242)
+	var all []*built
+	for round := 0; round < rounds; round++ {
+		var batch []*built
+		for k := 0; k < 2+r.IntN(5); k++ {
+			b := &built{right: r.IntN(2) == 0}
+			var names []string
+			var ro []clientip.TrustedRangeOption
+			var lo []clientip.BlacklistRangeOption
+			for j, n := 0, r.IntN(5); j < n; j++ {
+				f, on := fam(r.IntN(3)), r.IntN(4) > 0
+				if on {
+					b.fams[f], b.any = true, true
+				}
+				names = append(names, fmt.Sprintf("%s(%t)", []string{"Loopback", "LinkLocal", "PrivateNet"}[f], on))
+				switch f {
+				case loop:
+					ro, lo = append(ro, clientip.TrustLoopback(on)), append(lo, clientip.ExcludeLoopback(on))
+				case link:
+					ro, lo = append(ro, clientip.TrustLinkLocal(on)), append(lo, clientip.ExcludeLinkLocal(on))
+				default:
+					ro, lo = append(ro, clientip.TrustPrivateNet(on)), append(lo, clientip.ExcludePrivateNet(on))
+				}
+			}
+			var err error
+			if b.right {
+				b.res, err = clientip.NewRightmostNonPrivate(clientip.XForwardedForKey, ro...)
+				b.desc = fmt.Sprintf("RightmostNonPrivate(Trust %v)", names)
+			} else {
+				b.res, err = clientip.NewLeftmostNonPrivate(clientip.XForwardedForKey, 5, lo...)
+				b.desc = fmt.Sprintf("LeftmostNonPrivate(Exclude %v)", names)
+			}
+			if err != nil {
+				run.Violate("ctor", fmt.Sprintf("%s: %v", b.desc, err), nil)
+				continue
+			}
+			query(b, "right after its creation")
+			batch = append(batch, b)
+		}
+		// every resolver built so far (the last 60 are kept) is asked again after each batch
+		all = append(all, batch...)
+		if len(all) > 60 {
+			all = all[len(all)-60:]
+		}
+		for _, b := range all {
+			query(b, "again after more resolvers were created")
+		}
+		run.Case(fmt.Sprintf("independence|%d", round), true)
+	}
+	run.Count("resolver_batches", int64(rounds))
+}
+
+// contextPath: Context.ClientIP hands the CURRENT request to the configured resolver: after the request of a context
+// is replaced (SetRequest, CloneWith) the answer follows the new request.
+func contextPath(run *kit.Run) {
+	res, err := clientip.NewRightmostNonPrivate(clientip.XForwardedForKey)
+	if err != nil {
+		run.Violate("ctor", err.Error(), nil)
+		return
+	}
+	f, err := fox.New(fox.WithClientIPResolver(res))
+	if err != nil {
+		run.Inconclusive("fox.New: %v", err)
+		return
+	}
+	mk := func(xff string) *http.Request {
+		h := http.Header{}
+		if xff != "" {
+			h.Set("X-Forwarded-For", xff)
+		}
+		return &http.Request{Method: "GET", URL: &url.URL{Path: "/ip"}, Header: h, RemoteAddr: "192.0.2.200:4444", Proto: "HTTP/1.1", ProtoMajor: 1, ProtoMinor: 1}
+	}
+	seqs := [][]string{{"6.6.6.6", "203.0.114.77"}, {"6.6.6.6", ""}, {"", "7.7.7.7"}, {"10.0.0.1", "8.8.8.8, 10.0.0.1"}, {"1.1.1.1", "junk"}, {"1.1.1.1, 2.2.2.2", "2.2.2.2, 1.1.1.1", "3.3.3.3"}}
+	var cur []string
+	check := func(c fox.Context, xff, how string) {
+		want := result(res.ClientIP(ctxFor("X-Forwarded-For", hv(xff), "192.0.2.200:4444", nil)))
+		got := result(c.ClientIP())
+		run.Eval(1)
+		if got != want {
+			run.Violate("context-clientip|"+how, fmt.Sprintf("Context.ClientIP() %s returned %s; the resolver designates %s for the current request (X-Forwarded-For=%q; sequence %q)", how, got, want, xff, cur), map[string]any{"sequence": cur, "how": how})
+		}
+	}
+	f.MustHandle("GET", "/ip", func(c fox.Context) {
+		check(c, cur[0], "on the original request")
+		check(c, cur[0], "asked a second time")
+		for i, x := range cur[1:] {
+			cw := c.CloneWith(c.Writer(), mk(x))
+			check(cw, x, fmt.Sprintf("on a CloneWith copy carrying request #%d", i+2))
+			cw.Close()
+			c.SetRequest(mk(x))
+			check(c, x, fmt.Sprintf("after SetRequest #%d", i+1))
+		}
+	})
+	for round := 0; round < 3; round++ {
+		for _, sq := range seqs {
+			cur = sq
+			run.Case(fmt.Sprintf("context-path|%q|%d", sq, round), true)
+			run.Guard("context-path-panic", sq, func() { f.ServeHTTP(nullW{}, mk(sq[0])) })
+		}
+	}
+}
+
+func hv(x string) []string {
+	if x == "" {
+		return nil
+	}
+	return []string{x}
 }
 
 func one(run *kit.Run, r *rand.Rand) {
